@@ -16,12 +16,12 @@ and byte string; nothing is bounded.
   `dec_total_bounded`, `str_len_checked`, `seq_len_bounded`     (used by C12) consumed bytes = size of the value;
                        a string / byte length field larger than the remaining input is rejected before anything is
                        taken; a sequence of `n` elements that each occupy at least one byte consumed ≥ 8 + n bytes
-  `C10_oracle_sound`   the specification oracle accepts every observation of the model
+  `C10_oracle_sound`, `typegen_oracle_sound`   the specification oracle accepts every observation of the model
 
 Whether *serde's derive output for a Rust type* writes `enc v` for the `v` the schema assigns to it is the empirical
 part (correspondence check). One way in which it does not is modelled and proved here: `derive_indices_agree_iff`
 (the derived `Serialize` and the traced schema number a variant alike iff no skipped variant precedes it),
-`C10_full_false` (witness: `crux_http::HttpError`), `C10_partial`.
+`C10_full_false` (witness: the declaration order `crux_http::HttpError` had before /repo commit ed5c427), `C10_partial`.
 -/
 import CruxVerif.Lemmas.BincodeComplete
 namespace Props.C10
@@ -148,8 +148,10 @@ theorem derive_indices_agree_iff (skips : List Bool) (i : Nat) (hi : i ≤ skips
 def C10_full : Prop :=
   ∀ (skips : List Bool) (i : Nat), skips[i]? = some false → serIndex skips i = deIndex skips i
 
-/-- `crux_http::HttpError` (crux_http/src/error.rs:4-22): `Http` and `Json` are `#[serde(skip)]`, then `Url`, `Io`,
-    `Timeout`. `Url` is written as 2, the schema (and `Deserialize`) call it 0 — and read 2 as `Timeout`. -/
+/-- `crux_http::HttpError` as it was declared before /repo commit ed5c427 ("fix: declare the skipped HttpError variants
+    last …"): `Http` and `Json` `#[serde(skip)]` first, then `Url`, `Io`, `Timeout`. `Url` was written as 2, the schema (and
+    `Deserialize`) call it 0 — and read 2 as `Timeout`. The fixed order `[false, false, false, true, true]` is covered
+    by `C10_partial` (see the last `example` below). -/
 def httpErrorSkips : List Bool := [true, true, false, false, false]
 
 theorem C10_full_false : ¬ C10_full := by
@@ -212,6 +214,11 @@ theorem C10_oracle_sound (c : Case)
       have := (enc_dec _ _ _ _ _ _ hd).1
       simp [this, (beq_iff v v).2 rfl]
 
+/-- … also on `typegen` cases: the model of the type generator refuses exactly the apps whose schema would be incomplete -/
+theorem typegen_oracle_sound (variants : Nat) (registeredAlone : Bool) :
+    typegenOk variants registeredAlone (typegenRefuses variants registeredAlone) = true := by
+  cases registeredAlone <;> simp [typegenOk, typegenRefuses] <;> omega
+
 /-! ### non-vacuity -/
 
 def exR : Registry :=
@@ -226,6 +233,7 @@ example : wt exR (.typeName "E") (.variant 3 (.tuple [])) = false := by decide
 example : wt exR (.typeName "E") (.variant 1 (.tuple [.some (.num .u16 65536)])) = false := by decide
 example : (dec 3 exR (.typeName "E") [1,0,0,0, 2]).isNone = true := by decide
 example : (dec 3 exR (.typeName "E") [1,0,0,0, 0, 9]).isSome = true := by decide
+example : typegenOk 3 false false = false ∧ typegenRefuses 3 false = true ∧ typegenRefuses 3 true = false := by decide
 example : deIndex httpErrorSkips 2 = 0 ∧ serIndex httpErrorSkips 2 = 2 := by decide
 example : ∀ i, i < 3 → serIndex [false, false, false, true, true] i = deIndex [false, false, false, true, true] i := by
   decide
